@@ -135,6 +135,8 @@ def macro_scoping_jobs():
     # a global definition of several names at once, seen again after a macro
     add('global-tuple-then-macro', el('div', hide(plain), el('r', define=[['global', ['a', 'b'], py('(gv, gv + 1)')]]),
                                       P('a'), P('b'), use('plain'), P('a'), P('b')), [['gv', 'int', 0]])
+    pair = el('p', 'm', define_macro='pair', define=[['global', ['a', 'b'], py('(gv, gv + 1)')]])
+    add('macro-defines-several-globals', el('div', hide(pair), use('pair'), P('a'), P('b')), [['gv', 'int', 0]])
     return out
 
 
@@ -186,7 +188,7 @@ def plan(tier, seed):
                 'the name pool %s with the name initially unbound / None / 5, define values int, repeat length 0..3 or '
                 'None; Scope: all sequences of %s operations (local set / global set / delete / copy) on a root, its copy '
                 'and the copy of the copy, keys from a 2-name pool, values unbounded ints; reserved-name predicate on %d '
-                'name shapes with up to %d symbolic code points; 13 macro programs (a global defined inside a slot filler, a local hiding a global across a macro, a global definition of several names, a global re-defined by a macro once / several times / in nested macros, new globals and locals of a macro, caller locals seen inside and restored, a global shadowing a builtin, a global set inside a repeat of a macro) compared with their hand-inlined equivalents for all bindings. Outside: deeper nestings, names documented as reserved but accepted (known finding).'
+                'name shapes with up to %d symbolic code points; 14 macro programs (a global defined inside a slot filler, a local hiding a global across a macro, a global definition of several names, a global re-defined by a macro once / several times / in nested macros, new globals and locals of a macro, caller locals seen inside and restored, a global shadowing a builtin, a global set inside a repeat of a macro) compared with their hand-inlined equivalents for all bindings. Outside: deeper nestings, names documented as reserved but accepted (known finding).'
                 % (len(jobs), names, '<= 2' if quick else '<= 3', len(shapes), 2 if quick else 3)),
         assumptions=['reference scope semantics in vlib/refsem.py (stack of local frames, globals, initial bindings)',
                      'probe ${show(n) | "U"} observes visibility (NameError -> U)',
